@@ -106,6 +106,28 @@ def section(rep, wa, with_rates, mutate=None, classes=CLASSES):
             mv = O([S.var('mVX'), S.var('mVY'), S.var('mVZ')])
             for i in range(rows):
                 Z('z[%d] = (C^T V_ins)[%d] - measured' % (i, i), J(z1[i]) - (vb[i] - mv[i]), 'residual = predicted - measured')
+    # results do not depend on earlier queries of the same object (other altitude mode, other state, absent time)
+    other = EM.InsErrorModel(not wa)
+    for cname in classes:
+        ms = meas[cname]
+        meta = {'check': 'sequence', 'params': {'wa': wa, 'rates': with_rates, 'cls': cname}}
+        first = ms.compute_matrices(1.0, pva, em)
+        ms.compute_matrices(1.0, pc, other)
+        ms.compute_matrices(2.0, pva, other)
+        again = ms.compute_matrices(1.0, pva, em)
+        if first is None or again is None:
+            continue
+        same_shape = all(np.shape(a) == np.shape(b) for a, b in zip(first, again))
+        obls.append(enga.holds('%s %s: a query in the other altitude mode does not change the shapes of later results' % (cname, tag),
+                               z3.BoolVal(bool(same_shape)), 'queries are independent of earlier queries', meta=meta))
+        if same_shape:
+            for a, b, nm in zip(first, again, 'zHR'):
+                a, b = S.symnp.asarray(a), S.symnp.asarray(b)
+                for idx in np.ndindex(a.shape):
+                    d = J(a[idx]) - J(b[idx])
+                    for k in d.co:
+                        obls.append(enga.zero('%s %s: %s%s unchanged by intervening queries (eps^%d)' % (cname, tag, nm, list(idx), k[0]),
+                                              d.part(*k), 'queries are independent of earlier queries', meta=meta))
     rep.run.encode(M.Position.compute_matrices, M.NedVelocity.compute_matrices, M.BodyVelocity.compute_matrices,
                    EM.InsErrorModel.position_error_jacobian, EM.InsErrorModel.ned_velocity_error_jacobian,
                    EM.InsErrorModel.body_velocity_error_jacobian, EM.InsErrorModel.correct_pva)
@@ -263,6 +285,14 @@ def replay(spec):
         ms = measurements.BodyVelocity(data, sd)
     if ms.compute_matrices(2.0, pva, em) is not None:
         fails.append('a time absent from the data returned a measurement')
+    if spec.get('check') == 'sequence':
+        first = ms.compute_matrices(1.0, pva, em)
+        ms.compute_matrices(1.0, pva, error_model.InsErrorModel(not wa))
+        again = ms.compute_matrices(1.0, pva, em)
+        for a, b, nm in zip(first, again, 'zHR'):
+            if np.shape(a) != np.shape(b) or not np.array_equal(np.asarray(a, dtype=float), np.asarray(b, dtype=float)):
+                fails.append('%s returned by compute_matrices changed after a query in the other altitude mode: shape %s -> %s' % (nm, np.shape(a), np.shape(b)))
+        return {'violated': bool(fails), 'detail': fails}
     ret = ms.compute_matrices(1.0, pva, em)
     if ret is None:
         return {'violated': True, 'detail': ['a time present in the data returned None']}
